@@ -111,6 +111,8 @@ type interpreter struct {
 	fmtDepth   int
 	egErrs     map[*value]iface
 	codePtrs   map[*ssa.Function]*value
+	sched      *scheduler
+	condGen    map[*value]int
 	stack      []*ssa.Function
 	stackAtPanic []*ssa.Function
 }
@@ -316,7 +318,7 @@ func visitInstr(fr *frame, instr ssa.Instruction) continuation {
 		fr.i.goStmt(fr, instr, fn, args)
 
 	case *ssa.MakeChan:
-		fr.env[instr] = &channel{cap: int(fr.i.concreteInt(fr.get(instr.Size), 0, 64, "chan size"))}
+		fr.env[instr] = &channel{cap: int(fr.i.concreteInt(fr.get(instr.Size), 0, 64, "chan size")), i: fr.i}
 
 	case *ssa.Alloc:
 		var addr *value
